@@ -71,7 +71,7 @@ example : Spec.overlappingFieldsCanBeMerged wSchema ⟨[opV [] 1 [fld none "a"]]
   subst hsels
   have hent : ∀ rn e, Coll wSchema ⟨[opV [] 1 [fld none "a"]]⟩ p [fld none "a"] rn e →
       e = { parent := p, name := "a", args := [], hasSub := false, ssid := 0, sub := [],
-            fdef := p.bind fun q => fieldOf wSchema q "a" } := by
+            fdef := p.bind fun q => ovFieldOf wSchema q "a" } := by
     intro rn e h
     rcases h with h | ⟨g, hg, _⟩
     · cases h with
